@@ -203,6 +203,31 @@ func VerifHarness_C13_Timestamps() {
 	for j := 0; j < n && j < len(got); j++ {
 		vAssert(got[j] == ts[j], "C13.time-batch-roundtrip")
 	}
+	// the batch encoder (compaction writes blocks with it) against both decoders
+	b2, err := TimeArrayEncodeAll(append([]int64(nil), ts...), nil)
+	vAssert(err == nil, "C13.time-batch-encode-ok")
+	if err != nil {
+		return
+	}
+	got2, err := TimeArrayDecodeAll(b2, nil)
+	vAssert(err == nil, "C13.time-batch-encoder-decodes")
+	vAssert(len(got2) == n, "C13.time-batch-encoder-count")
+	for j := 0; j < n && j < len(got2); j++ {
+		vAssert(got2[j] == ts[j], "C13.time-batch-encoder-roundtrip")
+	}
+	var dec2 TimeDecoder
+	dec2.Init(b2)
+	k := 0
+	for dec2.Next() {
+		if k < n {
+			vAssert(dec2.Read() == ts[k], "C13.time-batch-encoder-to-iterator-roundtrip")
+		}
+		k++
+		if k > n+1 {
+			break
+		}
+	}
+	vAssert(dec2.Error() == nil && k == n, "C13.time-batch-encoder-to-iterator-count")
 	vReach("C13.time.end")
 }
 
